@@ -308,3 +308,19 @@ with plain_fields (fs : fields) : bool :=
   match fs with FNil => true | FCons f fs' => plain_field f && plain_fields fs' end
 with plain_values (vs : values) : bool :=
   match vs with VNil => true | VCons v vs' => plain_value v && plain_values vs' end.
+
+(* no parameters (mixed containers allowed) *)
+Fixpoint noparam_value (v : value) : bool :=
+  match v with
+  | VScalar _ _ => true
+  | VObject fs tl => noparam_fields fs && noparam_values tl
+  | VArray items => noparam_values items
+  | VArrayKv items kvs => noparam_values items && noparam_fields kvs
+  | VHeader _ v => noparam_value v
+  end
+with noparam_field (f : field) : bool :=
+  match f with Field _ _ _ v => noparam_value v | _ => false end
+with noparam_fields (fs : fields) : bool :=
+  match fs with FNil => true | FCons f fs' => noparam_field f && noparam_fields fs' end
+with noparam_values (vs : values) : bool :=
+  match vs with VNil => true | VCons v vs' => noparam_value v && noparam_values vs' end.
